@@ -129,25 +129,40 @@ def deep_ms(item):
     return 0
 
 
-# cases that are always recorded, whatever the seed: the shapes of the defects found during the design (F11, F18, F19) on every curve
+# cases that are always recorded, whatever the seed: the shapes of the defects found during the design (F11, F18, F19) on every curve, and one
+# record of every shape the binding self-checks falsify.  (type, base of the model, form, corruptions, real key)
 def anchors():
     out = []
     for name in NIST:
+        kid = name + "/short/%d"
         for form in ("construct:pub", "import:spki", "import:raw"):
-            out.append(("ws", form, ["neutral"], name))
+            out.append(("ws", 1 if form.startswith("construct") or name == "P-521" else 2, form, ["neutral"], kid))
         for corr in (["x+p"], ["y+p"]):
-            out.append(("ws", "construct:pub", corr, name))
-            out.append(("ws", "construct:dQ", corr, name))
+            out.append(("ws", 1, "construct:pub", corr, kid))
+            out.append(("ws", 1, "construct:dQ", corr, kid))
     for corr in (["x+p"], ["y+p"]):
-        out.append(("ws", "import:spki", corr, "P-521"))
+        out.append(("ws", 1, "import:spki", corr, "P-521/short/%d"))
+    for form, corr in (("construct:d", []), ("construct:dQ", []), ("import:spki", ["y+1"]), ("import:pkcs8Q", [])):
+        out.append(("ws", 2, form, corr, "P-256/short/%d"))
     for name in ("Ed25519", "Ed448"):
         for corr in (["x+p"], ["y+p"], ["(0,p+1)"]):
-            out.append(("ed", "construct:pub", corr, name))
-        out.append(("ed", "import:spki", ["(0,p+1)"], name))
+            out.append(("ed", 1, "construct:pub", corr, name + "/seed/%d"))
+        out.append(("ed", 1, "import:spki", ["(0,p+1)"], name + "/seed/%d"))
+        out.append(("ed", 1, "import:spki", [], name + "/seed/%d"))
+    out.append(("ed", 1, "construct:seed", [], "Ed25519/seed/%d"))
     for name in ("Curve25519", "Curve448"):
-        out.append(("mt", "construct:seedQ", ["u foreign"], name))
-        for corr in (["u=0"], ["u=p+1"], ["u+p"]):
-            out.append(("mt", "construct:pub", corr, name))
+        base = 1 if name == "Curve25519" else 2
+        out.append(("mt", base, "construct:seedQ", ["u foreign"], name + "/seed/%d"))
+        for corr in ([], ["u=0"], ["u=p+1"], ["u+p"]):
+            out.append(("mt", base, "construct:pub", corr, name + "/seed/%d"))
+    for kid in ("fix512", "fix768"):
+        for form, corr in (("construct:nedpq", []), ("construct:ned", []), ("construct:nedpqu", ["d+1"]), ("import:pkcs1", []), ("import:spki", []), ("import:pkcs8", ["d+1"])):
+            out.append(("rsa", 1, form, corr, kid))
+    for kid in ("toy", "d512"):
+        for form, corr in (("construct:priv", []), ("construct:priv", ["y+1"]), ("import:openssl", []), ("import:spki", [])):
+            out.append(("dsa", 1, form, corr, kid))
+    for form, corr in (("construct:priv", []), ("construct:pub", ["p+4"]), ("construct:priv", ["p+4"])):
+        out.append(("elgamal", 1, form, corr, "eg128"))
     return out
 
 
@@ -157,6 +172,24 @@ BUDGET_S = {   # estimated seconds of one TLC worker per type: (records without 
 }
 SINGLE_SHARE = 0.7      # quick tier: the cases with at most one corruption may use this share of the budget of the records without a long chain
 HEAVY_MS = 1500
+
+
+def anchor_ms(it, c):
+    """estimate for an item whose real key was chosen by hand"""
+    ty, kid = it["ty"], it["kid"]
+    name = kid.split("/")[0]
+    chain = c["why"] == "" or "*G" in c["why"]
+    if ty == "rsa":
+        return RSA_MS[kid]
+    if ty == "dsa":
+        return 2 * REC_MS + chain_ms(*DSA_KIDS[kid]) * (2 if it["form"] in ("construct:priv", "import:openssl", "import:pkcs8") else 1)
+    if ty == "elgamal":
+        return REC_MS + (chain_ms(128, 128) if it["form"] == "construct:priv" else 0)
+    if ty == "ws":
+        return REC_MS + (18 * LINK_MS[name] if chain and it["form"] in ("construct:d", "construct:dQ", "import:sec1", "import:sec1Q", "import:pkcs8", "import:pkcs8Q") else 0)
+    if ty == "ed":
+        return REC_MS + (int(1.5 * (253 if name == "Ed25519" else 447)) * LINK_MS[name] if chain and "seed" in it["form"] else 0)
+    return REC_MS + 30 + (LADDER_MS[name] if chain and "seed" in it["form"] else 0)
 
 
 def plan_cases(cases, ctx, rnd):
@@ -181,15 +214,13 @@ def plan_cases(cases, ctx, rnd):
         stats["taken"][what] = stats["taken"].get(what, 0) + 1
 
     # anchors first (charged to the budgets)
-    for ty, form, corr, name in anchors():
-        base = {"ws": 1 if name == "P-521" or form.startswith("construct") else 2, "ed": 1, "mt": 1 if name == "Curve25519" else 2}[ty]
+    for ty, base, form, corr, kid in anchors():
         c = index.get((ty, base, form, tuple(corr)))
         if c is None:
             raise core.Machinery("the model has no case %r" % ((ty, base, form, corr),))
-        it, ms = concretise(c, off + len(items), rnd, quick)
-        it["kid"] = "%s/%s/%d" % (name, "short" if ty == "ws" else "seed", (off + len(items)) % 3)
-        if ty == "mt" and "seed" in form and c["why"] in ("", "scalar(seed)*G = u"):
-            ms = REC_MS + LADDER_MS[name]
+        it, _ = concretise(c, off + len(items), rnd, quick)
+        it["kid"] = kid % ((off + len(items)) % 3) if "%d" in kid else kid
+        ms = anchor_ms(it, c)
         it["anchor"] = True
         budget[ty][1 if ms >= HEAVY_MS else 0] -= ms
         take(it, ms, ty, "anchors")
@@ -259,6 +290,8 @@ CLASSES = [   # canonical failure classes (what known_findings.json entries matc
     (r"accepted components violating: (coordinates < p|y < p in the encoding)", "accepted a coordinate >= p (not smaller than the field prime, out of range)"),
     (r"accepted components violating: the public value is not a point of small order.*", "accepted a listed low-order Montgomery point"),
     (r"accepted components violating: the point satisfies the curve equation", "accepted a point off the curve"),
+    (r"raised Timeout instead of ValueError.*", "did not return within the deadline (no key, no ValueError)"),
+    (r"raised Crash instead of ValueError.*", "killed the interpreter (no key, no ValueError)"),
     (r"raised (\w+) instead of ValueError.*", r"raised \1 instead of ValueError"),
     (r"refused a valid key with (\w+)", r"refused a valid key with \1"),
 ]
@@ -384,7 +417,7 @@ def binding_checks(quick):
     check(lambda t: t["fam"] == "rsa" and t["api"] == "import_key" and not t["has"]["d"] and key(t), outcome("ValueError"), "RSA import_key (public): key -> ValueError")
     check(lambda t: t["fam"] == "rsa" and t["api"] == "import_key" and t["has"]["crt"] and refused(t), outcome("none"), "RSA import_key: ValueError -> key")
     check(lambda t: t["fam"] == "dsa" and t["hasx"] and key(t) and cheap(t) and t["kid"] != "toy" and not t["deep"], setk("y"), "DSA: one bit of the returned y")
-    check(lambda t: t["fam"] == "dsa" and t["hasx"] and refused(t) and cheap(t) and t["kid"] != "toy" and t["mwhy"] == "g^x = y mod p", outcome("none"),
+    check(lambda t: t["fam"] == "dsa" and t["hasx"] and refused(t) and cheap(t) and t["mwhy"] == "g^x = y mod p", outcome("none"),
           "DSA: mismatched x / y: ValueError -> key")
     check(lambda t: t["fam"] == "dsa" and t["api"] == "import_key" and key(t) and cheap(t), outcome("ValueError"), "DSA import_key: key -> ValueError")
     check(lambda t: t["fam"] == "elgamal" and t["hasx"] and key(t), setk("x"), "ElGamal: one bit of the returned x")
